@@ -130,7 +130,8 @@ Proof.
   - intros; discriminate.
   - intros; discriminate.
   - intros; discriminate.
-  - intros; discriminate.
+  - intros id c a IHa Hf st. cbn [fragb] in Hf. apply andb_prop in Hf. destruct Hf as [_ Hfa]. cbn [get_state].
+    destruct (IHa Hfa st) as [ja [st1 ->]]. cbn [bind]. eauto.
   - intros; discriminate.
   - intros; discriminate.
 Qed.
